@@ -110,7 +110,7 @@ def check_site(year, site):
         sel = [ssym == consts[m]] if m is not None and ssym is not None else []
         mtxt = m or 'any'
         oid = f'{oid0}/{mtxt}'
-        if kind in ('echo', 'coef'):
+        if kind in ('echo', 'coef', 'ratio'):
             want = official_for(m)
             covered = 0
             bad = None
@@ -133,8 +133,12 @@ def check_site(year, site):
                     if cs is None:
                         bad = (p, f'symbol {site["symbol"]} is not read by the line', None)
                         break
-                    goal = sym.term(val, 'real') == rv(want) * (z3.ToReal(cs) if ck == 'int' else cs)
-                    clause = f'{lname} == {float(want)} * {site["symbol"]} (official {site["official"]}[{year}])'
+                    if kind == 'ratio':
+                        goal = sym.term(val, 'real') * rv(want) == (z3.ToReal(cs) if ck == 'int' else cs)
+                        clause = f'{lname} == {site["symbol"]} / {float(want)} (official {site["official"]}[{year}][{mtxt}])'
+                    else:
+                        goal = sym.term(val, 'real') == rv(want) * (z3.ToReal(cs) if ck == 'int' else cs)
+                        clause = f'{lname} == {float(want)} * {site["symbol"]} (official {site["official"]}[{year}])'
                 st, model, be, secs, txt = smt.prove(hyp, goal)
                 if st != 'discharged':
                     mdl, _ = replay.solve_model(p, extra=sel + assume + [z3.Not(goal)])
@@ -151,7 +155,7 @@ def check_site(year, site):
                 got = rep.get('value')
                 rep['expected'] = str(want)
                 try:
-                    rep['reproduced'] = rep.get('outcome') == 'return' and (kind == 'coef' or abs(float(got) - float(want)) > 1e-9)
+                    rep['reproduced'] = rep.get('outcome') == 'return' and (kind in ('coef', 'ratio') or abs(float(got) - float(want)) > 1e-9)
                 except Exception:
                     rep['reproduced'] = rep.get('outcome') != 'return'
                 obs.append(Ob(id=oid, status=oblig.REFUTED, backend='z3', function=fidn, clause='NOT: ' + clause, witness=wit, replay=rep,
@@ -175,7 +179,10 @@ def check_site(year, site):
             for p in paths:
                 if sel and smt.satisfiable(p.conds + sel) != z3.sat:
                     continue
-                for c in p.conds:
+                srcs = list(p.conds)
+                if p.outcome[0] == 'return' and isinstance(p.outcome[1], sym.SV) and p.outcome[1].kind == 'bool':
+                    srcs.append(p.outcome[1].t)      # a line that returns the comparison itself (check-box lines)
+                for c in srcs:
                     for at in atoms_of(c, []):
                         if not mentions(at, sx) or at.sexpr() in seen:
                             continue
@@ -227,6 +234,87 @@ def check_site(year, site):
                 obs.append(Ob(id=oid, status=oblig.REFUTED, backend='z3', function=fidn, clause='NOT: ' + clause, witness=wit, replay=rep,
                               vc=str(a2), solver_output='sat',
                               replay_spec={'kind': 'line', 'year': year, 'line': lname, 'inputs': wit['inputs'], 'values': wit['values']}))
+        elif kind == 'const':
+            want = official_for(m)
+            allowed = {float(x) for x in (want if isinstance(want, (set, list, tuple)) else [want])}
+            found, bad = 0, None
+            seen = set()
+            ments = list(site['mentions'])
+            for e in sym.SIGMA.by_key.values():       # sums over the mentioned reads count as mentions
+                if any(mt in e['delta'].sexpr() for mt in site['mentions']):
+                    ments.append(e['f'].name() + ' ')
+                    ments.append('(' + e['f'].name() + ' ')
+            for p in paths:
+                if sel and smt.satisfiable(p.conds + sel) != z3.sat:
+                    continue
+                srcs = list(p.conds) + [f for f in p.facts if z3.is_quantifier(f)]
+                for c in srcs:
+                    body = c.body() if z3.is_quantifier(c) else c
+                    for at in atoms_of(body, []):
+                        sx = at.sexpr()
+                        if not any(mt in sx for mt in ments) or sx in seen:
+                            continue
+                        seen.add(sx)
+                        a2 = z3.simplify(z3.substitute(at, (ssym, consts[m])) if (ssym is not None and m is not None) else at, arith_lhs=True)
+                        nums = [abs(float(F(x.as_fraction()))) for x in subterms(a2) if z3.is_rational_value(x) or z3.is_int_value(x)]
+                        nums = [n for n in nums if n > 1]
+                        if not nums:
+                            continue
+                        found += 1
+                        if any(n not in allowed for n in nums):
+                            bad = (str(a2)[:200], nums)
+            clause = f'{lname} compares amounts built from {site["mentions"]} only with the official {site["official"]}[{year}][{mtxt}] = {sorted(allowed)}'
+            if bad is None and found:
+                obs.append(Ob(id=oid, backend='z3', function=fidn, time_s=time.time() - t0, clause=clause, vc=f'{found} condition atom(s)'))
+            elif bad is None:
+                obs.append(Ob(id=oid, status=oblig.ERROR, function=fidn, solver_output=f'vacuous: no condition of the line compares {site["mentions"]} with a constant'))
+            else:
+                obs.append(Ob(id=oid, status=oblig.REFUTED, backend='z3', function=fidn, clause='NOT: ' + clause, vc=bad[0], witness={'condition': bad[0], 'constants': bad[1], 'official': sorted(allowed)},
+                              replay={'reproduced': True, 'note': 'constant extracted from the executed path of the real line'}))
+        elif kind == 'table':
+            tab = official_for(m)
+            amt, _ = find_symbol(site['amount'])
+            if amt is None:
+                obs.append(Ob(id=oid, status=oblig.ERROR, function=fidn, solver_output=f'{site["amount"]} is not read by the line'))
+                continue
+            bounds = [z3.RealVal(-10 ** 12)] + [rv(b) for b, _ in tab] + [None]
+            vals = [a for _, a in tab] + [0]
+            for k, want in enumerate(vals):
+                t1 = time.time()
+                lo, hi = bounds[k], bounds[k + 1]
+                rng = [amt > lo] + ([amt <= hi] if hi is not None else [])
+                covered, bad = 0, None
+                for p in paths:
+                    if p.outcome[0] != 'return':
+                        continue
+                    hyp = p.conds + p.facts + sel + rng
+                    if smt.satisfiable(hyp) == z3.unsat:
+                        continue
+                    covered += 1
+                    val = p.outcome[1]
+                    if val is None or sym.kind_of(val) not in sym.NUM:
+                        bad = (p, None)
+                        break
+                    st, model, be, secs, txt = smt.prove(hyp, sym.term(val, 'real') == rv(want))
+                    if st != 'discharged':
+                        mdl, _ = replay.solve_model(p, extra=sel + rng + [sym.term(val, 'real') != rv(want)])
+                        bad = (p, mdl)
+                        break
+                boid = f'{oid}/bracket={k}'
+                clause = f'{lname} is {want} for {mtxt} with {site["amount"]} in ({tab[k - 1][0] if k else "-inf"}, {tab[k][0] if k < len(tab) else "inf"}]'
+                if bad is None and covered:
+                    obs.append(Ob(id=boid, backend='z3', function=fidn, time_s=time.time() - t1, clause=clause, vc=f'{covered} path(s)'))
+                elif bad is None:
+                    obs.append(Ob(id=boid, status=oblig.ERROR, function=fidn, solver_output='vacuous: no returning path in this bracket'))
+                else:
+                    rep, wit = native(year, lname, bad[1])
+                    rep['expected'] = str(want)
+                    try:
+                        rep['reproduced'] = rep.get('outcome') == 'return' and abs(float(eval(rep['value'], {'__builtins__': {}})) - float(want)) > 1e-9
+                    except Exception:
+                        rep['reproduced'] = rep.get('outcome') != 'return'
+                    obs.append(Ob(id=boid, status=oblig.REFUTED, backend='z3', function=fidn, clause='NOT: ' + clause, witness=wit, replay=rep, solver_output='sat',
+                                  replay_spec={'kind': 'line', 'year': year, 'line': lname, 'inputs': wit['inputs'], 'values': wit['values']}))
         elif kind == 'eic':
             obs.extend(eic_site(year, site, lname, fidn, paths, ssym, consts))
             break
